@@ -356,6 +356,9 @@ Definition check_case (sel : Z) (cs : list int * (list (list int) * list (list i
           (vthen (if on 3 then mon_C03_detect c rs else vok)
           (vthen (if on 3 then mon_C03_sched c rs else vok)
           (vthen (if on 3 then mon_stuck 18 536 rs else vok)
-          (vthen (corr_sched c rs) (corr_logs c rs)))))
+          (* C05 rests on it too: a member held Suspect keeps being probed (the ping carries the suspicion, the
+             ack carries the refutation), so the coverage rule is also judged under C05 *)
+          (vthen (if Z.eqb sel 5 then (let v := mon_C03_sched c rs in if N.eqb (vcode v) 534 then mkV 524 (vstep v) else vok) else vok)
+          (vthen (corr_sched c rs) (corr_logs c rs))))))
         else if on 5 then vthen (mon_stuck 18 523 rs) (vthen (mon_below_owner rs) (vthen (mon_C05 rs) (corr_logs c rs))) else vok
   end.
